@@ -36,6 +36,7 @@ struct DWorld : World {
 	}
 	void gen(Rng &r, Plan &p, int tier) override {
 		p.set("fallback", r.chance(3, 4));
+		p.set("reserve_first", r.chance(1, 5));   // the dispatcher's own table comes into being through a reply-id reservation (C++: dispatch is a command::array)
 		int nops = (int) r.range(1, tier ? 120 : 50);
 		bool allocf = r.chance(1, 3);
 		for (int i = 0; i < nops; ++i) {
@@ -148,6 +149,16 @@ struct DWorld : World {
 		std::set<uintptr_t> reserved;
 		if (!lib_fallback) { fallback = new_rec(0, 0, true); fallback->registered = true; { Sut s; D->set_error(handler, fallback); } }
 		log.ev("dispatch fallback=%s", lib_fallback ? "library default" : "harness");
+		if (p.get("reserve_first")) {
+			// first use of the table is a reservation: the slot becomes a registration like any other (reached by its id, told once when it ends)
+			command *c; { Sut s; c = mpt_command_reserve(reinterpret_cast<unique_array<command> *>(D), 2); }
+			if (!c) fail("refused-valid", "reservation on an empty dispatcher table refused");
+			Rec *r = new_rec(c->id, 0, false); r->registered = true;
+			c->cmd = (int (*)(void *, void *)) handler; c->arg = r;
+			live[c->id] = r;
+			log.ev("RESERVE on the dispatcher table -> id %lx rec #%d", (unsigned long) c->id, r->index);
+			st.hit("probe:table_created_by_reservation");
+		}
 
 		auto emit = [&](event *ev, uintptr_t target_id, bool has_target_id, const char *what, bool hashed) {
 			calls.clear();
